@@ -1010,8 +1010,44 @@ impl HttpProxy {
     pub fn remove_listener(&mut self, remove: RemoveListener) -> Result<(), ProxyError> {
         let len = self.listeners.len();
         let remove_address = remove.address.into();
+        let mut removed_tokens: Vec<Token> = Vec::new();
+        for (token, l) in self.listeners.iter() {
+            if l.borrow().address != remove_address {
+                continue;
+            }
+            removed_tokens.push(*token);
+            // stop listening: sessions may keep the listener alive through their
+            // own reference, its socket must not outlive the slab entry
+            if let Some(mut sock) = l.borrow_mut().listener.take() {
+                if let Err(e) = self.registry.deregister(&mut sock) {
+                    error!(
+                        "{} error deregistering HTTP listen socket({:?}): {:?}",
+                        log_module_context!(),
+                        sock,
+                        e
+                    );
+                }
+            }
+        }
         self.listeners
             .retain(|_, l| l.borrow().address != remove_address);
+        // Free the listen token's slab entry, as DeactivateListener does: the
+        // server lowers `base_sessions_count` for a removed listener, and
+        // SoftStop's exit test compares the slab against that count. A stale
+        // entry kept the worker from ever finishing a soft stop.
+        let mut sessions = self.sessions.borrow_mut();
+        for token in removed_tokens {
+            // a deactivated listener gave its slot back already and the key may
+            // have been reused since: only a listen entry of our kind is ours
+            if sessions
+                .slab
+                .get(token.0)
+                .is_some_and(|s| s.borrow().protocol() == Protocol::HTTPListen)
+            {
+                sessions.slab.remove(token.0);
+            }
+        }
+        drop(sessions);
 
         if !self.listeners.len() < len {
             info!(
